@@ -95,6 +95,7 @@ type Deref struct {
 	Org   int       // origin of the nil in the frame that reports it
 	Pos   token.Pos // where (innermost)
 	Top   token.Pos // the instruction in the reporting frame (call site or the deref itself)
+	Ins   ssa.Instruction // that instruction
 	What  string    // description, position-free
 	Chain []string  // call chain from the reporting frame down to the dereference
 }
@@ -105,6 +106,7 @@ type summary struct {
 	exhausted bool
 	panics    bool // every path panics/derefs (no return)
 	nilRet    bool // some feasible path returns nil as first result
+	nilPos    map[int]bool // result positions that are nil on some path whose error result is nil
 }
 
 type AE struct {
@@ -125,7 +127,7 @@ type AE struct {
 	// missAll: every map index yields the zero value and every call to a function in
 	// missFns yields nil ("all lookups miss")
 	missAll bool
-	missFns map[*ssa.Function]bool
+	missFns map[*ssa.Function]map[int]bool
 }
 
 func (a *AE) liveOf(fn *ssa.Function) *liveInfo {
@@ -308,6 +310,9 @@ func stdlibFact(fn *ssa.Function, args []Val) (Val, bool) {
 		return unknown, false
 	}
 	n := fn.String()
+	if n == "fmt.Errorf" || n == "errors.New" {
+		return Val{k: kNonNil}, true
+	}
 	if len(args) == 1 && args[0].k == kInt {
 		r := rune(args[0].i)
 		switch n {
@@ -505,14 +510,29 @@ func (a *AE) evalFunc(fn *ssa.Function, args []Val) *summary {
 	}
 	var rets []Val
 	nilRet := false
+	nilPos := map[int]bool{}
+	errIdx := errorResultIndex(fn.Signature)
 	a.explore(fr, fn.Blocks[0], 0, e, func(v Val) {
 		rets = append(rets, v)
 		if v.k == kNil || (v.k == kTuple && len(v.tup) > 0 && v.tup[0].k == kNil) {
 			nilRet = true
 		}
+		if v.k == kTuple {
+			// callers look at the other results only when the error is nil
+			if errIdx >= 0 && errIdx < len(v.tup) && v.tup[errIdx].k == kNonNil {
+				return
+			}
+			for i, x := range v.tup {
+				if x.k == kNil && i != errIdx {
+					nilPos[i] = true
+				}
+			}
+		} else if v.k == kNil {
+			nilPos[0] = true
+		}
 	})
 
-	s := &summary{exhausted: fr.over, nilRet: nilRet}
+	s := &summary{exhausted: fr.over, nilRet: nilRet, nilPos: nilPos}
 	if fr.over || len(rets) == 0 {
 		s.ret = unknown
 		s.panics = len(rets) == 0 && !fr.over
@@ -736,7 +756,7 @@ func (a *AE) step(fr *frame, ins ssa.Instruction, e aenv) (dead bool) {
 		case x.Op == token.SUB && v.k == kInt:
 			e[x] = vInt(-v.i)
 		case x.Op == token.MUL && v.k == kNil:
-			fr.deref(Deref{Org: v.org, Pos: instrPos(ins), What: "load through nil " + describeValue(x.X)})
+			fr.deref(Deref{Org: v.org, Pos: instrPos(ins), Ins: ins, What: "load through nil " + describeValue(x.X)})
 			return true
 		default:
 			delete(e, x)
@@ -750,7 +770,7 @@ func (a *AE) step(fr *frame, ins ssa.Instruction, e aenv) (dead bool) {
 					fld = s.Field(x.Field).Name()
 				}
 			}
-			fr.deref(Deref{Org: v.org, Pos: instrPos(ins), What: "field ." + fld + " of nil " + describeValue(x.X)})
+			fr.deref(Deref{Org: v.org, Pos: instrPos(ins), Ins: ins, What: "field ." + fld + " of nil " + describeValue(x.X)})
 			return true
 		}
 	case *ssa.Extract:
@@ -804,7 +824,7 @@ func (a *AE) step(fr *frame, ins ssa.Instruction, e aenv) (dead bool) {
 		delete(e, x)
 	case *ssa.MapUpdate:
 		if v := a.get(e, x.Map); v.k == kNil {
-			fr.deref(Deref{Org: v.org, Pos: instrPos(ins), What: "store into nil map"})
+			fr.deref(Deref{Org: v.org, Pos: instrPos(ins), Ins: ins, What: "store into nil map"})
 			return true
 		}
 	case *ssa.Call:
@@ -826,7 +846,7 @@ func (a *AE) call(fr *frame, x *ssa.Call, e aenv) (dead bool) {
 	}
 	if x.Call.IsInvoke() {
 		if v := a.get(e, x.Call.Value); v.k == kNil {
-			fr.deref(Deref{Org: v.org, Pos: instrPos(x), What: "method " + x.Call.Method.Name() + " on nil interface"})
+			fr.deref(Deref{Org: v.org, Pos: instrPos(x), Ins: x, What: "method " + x.Call.Method.Name() + " on nil interface"})
 			return true
 		}
 		delete(e, x)
@@ -852,8 +872,8 @@ func (a *AE) call(fr *frame, x *ssa.Call, e aenv) (dead bool) {
 			return false
 		}
 	}
-	if a.missAll && a.missFns[callee] {
-		e[x] = vNil(fr.site(x))
+	if pos := a.missFns[callee]; a.missAll && len(pos) > 0 {
+		e[x] = missValue(callee, pos, fr.site(x))
 		return false
 	}
 	args := make([]Val, len(x.Call.Args))
@@ -874,7 +894,10 @@ func (a *AE) call(fr *frame, x *ssa.Call, e aenv) (dead bool) {
 			interesting = true
 		}
 	}
-	if !interesting && !((a.env.EOF || a.env.NL) && a.reads(callee, 0)) {
+	// error constructors of the module are always evaluated: whether an error result is
+	// definitely non-nil decides which other results the caller looks at
+	errCtor := callee.Signature.Results().Len() == 1 && types.Identical(callee.Signature.Results().At(0).Type(), errorType) && len(callee.Blocks) <= 3
+	if !interesting && !errCtor && !((a.env.EOF || a.env.NL) && a.reads(callee, 0)) {
 		delete(e, x)
 		return false
 	}
@@ -886,7 +909,7 @@ func (a *AE) call(fr *frame, x *ssa.Call, e aenv) (dead bool) {
 			continue
 		}
 		chain := append([]string{fnKey(callee)}, d.Chain...)
-		fr.deref(Deref{Org: args[pi].org, Pos: d.Pos, Top: instrPos(x), What: d.What, Chain: chain})
+		fr.deref(Deref{Org: args[pi].org, Pos: d.Pos, Top: instrPos(x), Ins: x, What: d.What, Chain: chain})
 	}
 	if s.panics {
 		return true
@@ -926,4 +949,26 @@ func (a *AE) mapRet(fr *frame, x *ssa.Call, r Val, args []Val) Val {
 		return vTuple(t...)
 	}
 	return r
+}
+
+// missValue builds the result of a lookup that finds nothing: nil at the given result
+// positions, a nil error, everything else unknown.
+func missValue(callee *ssa.Function, pos map[int]bool, org int) Val {
+	res := callee.Signature.Results()
+	if res.Len() == 1 {
+		return vNil(org)
+	}
+	t := make([]Val, res.Len())
+	ei := errorResultIndex(callee.Signature)
+	for i := range t {
+		switch {
+		case pos[i]:
+			t[i] = vNil(org)
+		case i == ei:
+			t[i] = Val{k: kNil}
+		default:
+			t[i] = unknown
+		}
+	}
+	return vTuple(t...)
 }
